@@ -17,6 +17,9 @@ MM = ["Muss", "M", "muss", "m", "MUSS", "Soll", "S", "soll", "s", "Kann", "K", "
 PO = ["X", "O", "U", "x", "o", "u"]
 RC, HINTS, FCS = ["1", "2", "3", "4"], ["501", "502"], ["901", "902"]
 PACKAGES = {"1P": "[1] U [2]", "2P": "[3]", "3P": "[1][901]", "4P": "[501]", "9P": None}
+# package definitions vary from one content evaluation result to the next (same key, other expression)
+PACKAGE_CHOICES = {"1P": ["[1] U [2]", "[2]", "[1] O [4]"], "2P": ["[3]", "[4]", "[1] X [3]"], "3P": ["[1][901]", "[2][902]"], "4P": ["[501]", "[502]"], "9P": [None]}
+CURRENT_PACKAGES = dict(PACKAGES)
 
 
 # ------------------------------------------------------------------ AHB expressions
@@ -296,8 +299,16 @@ def ahb_obs(res):
 # ------------------------------------------------------------------ shared drivers
 def setup_cer(rng, unknown=0.05):
     rc, h, fc = random_cer(rng, unknown=unknown)
-    evalimpl.set_cer(rc=rc, hints=h, fc=fc, packages=dict(PACKAGES))
+    CURRENT_PACKAGES.clear()
+    CURRENT_PACKAGES.update({k: rng.choice(v) for k, v in PACKAGE_CHOICES.items()})
+    evalimpl.set_cer(rc=rc, hints=h, fc=fc, packages=dict(CURRENT_PACKAGES))
     return rc, h, fc
+
+
+def reset_cer(case):
+    """re-install the content evaluation result (incl. the package table) a case was generated with"""
+    rc, h, fc = case["cer"]
+    evalimpl.set_cer(rc=rc, hints=h, fc=fc, packages=dict(case["packages"]))
 
 
 def validation_cases(ctx, n_trees, kind="any", unknown=0.05, flags=(True, False)):
@@ -311,7 +322,7 @@ def validation_cases(ctx, n_trees, kind="any", unknown=0.05, flags=(True, False)
         inv = {m for m in cache.inv.values() if m}
         for soll in flags:
             res = run_validation(lines, soll)
-            out.append({"cer": (rc, h, fc), "lines": lines, "soll": soll, "res": res, "cache": cache,
+            out.append({"cer": (rc, h, fc), "packages": dict(CURRENT_PACKAGES), "lines": lines, "soll": soll, "res": res, "cache": cache,
                         "term": f"({gcer(rc, h, fc)}, {lt}, {gbool(soll)}, {val_obs(res, inv)})"})
     return out
 
@@ -332,7 +343,8 @@ def check_val_correspondence(ctx, cases, tag):
 
 
 def describe(case):
-    return {"lines": case["lines"], "soll_is_required": case["soll"], "rc": case["cer"][0], "fc": {k: list(v) for k, v in case["cer"][2].items()}}
+    return {"lines": case["lines"], "soll_is_required": case["soll"], "rc": case["cer"][0], "fc": {k: list(v) for k, v in case["cer"][2].items()},
+            "packages": case.get("packages", PACKAGES)}
 
 
 def replay_validation(path):
@@ -347,7 +359,7 @@ def replay_validation(path):
         return n
 
     lines = [untuple(n) for n in inp["lines"]]
-    evalimpl.set_cer(rc=inp["rc"], hints={k: "H" + k for k in HINTS}, fc={k: tuple(v) for k, v in inp["fc"].items()}, packages=dict(PACKAGES))
+    evalimpl.set_cer(rc=inp["rc"], hints={k: "H" + k for k in HINTS}, fc={k: tuple(v) for k, v in inp["fc"].items()}, packages=dict(inp.get("packages", PACKAGES)))
     print("expected:", r.get("expected"))
     print("observed when recorded:", r.get("observed"))
     print("now:", summarize(run_validation(lines, inp["soll_is_required"])))
